@@ -197,6 +197,8 @@ def classes_of(spec):
         cls.append('repeated-runs')
     if spec['ops'] and spec['ops'][0]['op'] == 'record':
         cls.append('record-before-run')
+    if any(o['op'] == 'recopts' for o in spec['ops']):
+        cls.append('options-changed-between-runs')
     return cls, len(levels) >= 2 and nd
 
 
@@ -333,9 +335,15 @@ def _check(spec, res, nontrivial, om):
     for idx, e in enumerate(log):
         r = recs[e['key']]
         kind = r['on']
-        if e['key'] not in exp_cache:
-            exp_cache[e['key']] = expected_sets(info, r)
-        exp, opts = exp_cache[e['key']]
+        # options in force for this case: the last 'recopts' operation on this requester before the case's operation
+        changes = tuple(j for j, op in enumerate(spec['ops']) if op['op'] == 'recopts' and j < e['op'] and
+                        M.key_of(spec['recorders'][op['rec']]) == e['key'])
+        if changes:
+            r = dict(r, opts=spec['ops'][changes[-1]]['opts'])
+        ck = (e['key'], changes[-1] if changes else -1)
+        if ck not in exp_cache:
+            exp_cache[ck] = expected_sets(info, r)
+        exp, opts = exp_cache[ck]
         try:
             c = cr.get_case(e['name'])
             if c.source != e['source']:
